@@ -29,6 +29,10 @@ type crashHist struct {
 	timer     bool                // the real 100 ms flush timer runs (no explicit flushes needed)
 	db        string              // the database's name as written in SQL ("" = d1)
 	timerOnly bool                // template that only makes sense with the real timer
+	// prepare completes a template that depends on something measured on the
+	// real system (a file size); false: leave the template out
+	prepare func(c *core.Ctx, drv string, ch *crashHist) bool
+	noFlush bool // only the schedules that leave work in the log make sense
 }
 
 func intv(i int64) proto.Val { return proto.Int(i) }
@@ -122,7 +126,89 @@ func crashTemplates(r *core.Rand) []*crashHist {
 	// after that tick (and after one more small statement)
 	mk("huge-insert-under-timer", kgTable("h"), kgInsert("h", 0, 6000), kgInsert("h", 6000, 1), kgInsert("h", 6001, 2),
 		&proto.Stmt{Kind: "delete", Table: "h", Where: model.Cmp("<", model.ColOp("k"), model.LitOp(intv(5)))}).timerOnly = true
+	// T10: the log is EXACTLY 2^16 / 2^20 bytes long at a statement boundary
+	// (a reader or writer that works in blocks of such a size sees a block end
+	// where a record ends), and acknowledged statements follow that live in
+	// the log only
+	for _, target := range []int64{1 << 16, 1 << 20} {
+		target := target
+		h := mk(fmt.Sprintf("log-size-2^%d", map[int64]int{1 << 16: 16, 1 << 20: 20}[target]))
+		h.noFlush = true
+		h.prepare = func(c *core.Ctx, drv string, ch *crashHist) bool { return prepareLogSize(c, drv, ch, target) }
+	}
 	return out
+}
+
+// prepareLogSize fills in the statements of the log-size template: a table is
+// grown until the log is a little short of target bytes, the real log size is
+// measured, and one more INSERT is sized so that the log ends exactly at
+// target; further statements follow.
+func prepareLogSize(c *core.Ctx, drv string, ch *crashHist, target int64) bool {
+	const pad, rec = 200, 29 + 15 + 200 // bytes of one log record of a (k, g, pad) row with a 200-byte pad
+	mkRows := func(from, n int, lastPad int) *proto.Stmt {
+		st := &proto.Stmt{Kind: "insert", Table: "pw"}
+		for i := 0; i < n; i++ {
+			p := pad
+			if i == n-1 && lastPad >= 0 {
+				p = lastPad
+			}
+			st.Rows = append(st.Rows, []proto.Val{intv(int64(from + i)), intv(int64((from + i) % 5)), proto.Str(strings.Repeat("p", p))})
+		}
+		return st
+	}
+	stmts := []*proto.Stmt{simpleTable("pw", proto.ColDef{Name: "k", Type: "int"}, proto.ColDef{Name: "g", Type: "int"}, proto.ColDef{Name: "pad", Type: "varchar", Len: 255})}
+	n0 := int((target - 2000) / rec)
+	next := 0
+	for left := n0; left > 0; {
+		n := left
+		if n > 400 {
+			n = 400
+		}
+		stmts = append(stmts, mkRows(next, n, -1))
+		next += n
+		left -= n
+	}
+	measure := func(sts []*proto.Stmt) int64 {
+		dir := c.CaseDir("c02m")
+		defer removeAll(dir)
+		var s script
+		s.open(true, 0, "d1", true)
+		for _, st := range sts {
+			s.stmt(st)
+		}
+		id := s.add(proto.Op{K: "filesize", S: "data/d1/wal"})
+		out := core.RunScript(drv, dir, s.ops, 120*time.Second)
+		if out.Died || out.Res[id].Failed() {
+			return -1
+		}
+		return out.Res[id].N
+	}
+	s0 := measure(stmts)
+	if s0 < 0 || target-s0 < 44 {
+		return false
+	}
+	remaining := target - s0
+	nfull := 0
+	for remaining-int64(rec) >= 44 {
+		nfull++
+		remaining -= rec
+	}
+	if remaining-44 > 255 || remaining < 44 {
+		return false
+	}
+	stmts = append(stmts, mkRows(next, nfull+1, int(remaining-44)))
+	next += nfull + 1
+	if measure(stmts) != target {
+		// the sizes assumed above are not those of this tree: no template
+		return false
+	}
+	kEq := func(k int64) *proto.Cond { return model.Cmp("=", model.ColOp("k"), model.LitOp(intv(k))) }
+	stmts = append(stmts, mkRows(next, 2, 10),
+		&proto.Stmt{Kind: "update", Table: "pw", Sets: []proto.SetItem{{Col: "g", Val: intv(77)}}, Where: kEq(int64(next))},
+		kgTable("other"), kgInsert("other", 0, 3),
+		&proto.Stmt{Kind: "delete", Table: "pw", Where: kEq(3)}, mkRows(next+2, 1, 5))
+	ch.stmts = stmts
+	return true
 }
 
 func buildCrashHist(c *core.Ctx, idx int) *crashHist {
@@ -214,6 +300,15 @@ func checkC02(c *core.Ctx) []core.Floor {
 			if t.timerOnly && rep != 3 {
 				continue
 			}
+			if t.noFlush && rep != 0 && rep != 2 {
+				continue
+			}
+			if t.prepare != nil {
+				if (core.Quick(c) && t.name == "log-size-2^20" && rep != 0) || !t.prepare(c, drv, t) {
+					continue
+				}
+				c.Count("templates_with_the_log_exactly_a_power_of_two_long_at_a_statement_boundary", 1)
+			}
 			t.idx = 9000000 + len(hists)
 			t.schedule(tr, rep)
 			hists = append(hists, t)
@@ -245,7 +340,7 @@ func checkC02(c *core.Ctx) []core.Floor {
 		runCrashHist(c, drv, hists[i], kill)
 	})
 	return []core.Floor{
-		{Key: "images_verified", Min: 1000}, {Key: "recoveries_that_replayed", Min: 100}, {Key: "chains_of_3_cycles", Min: 1},
+		{Key: "images_verified", Min: 1000}, {Key: "templates_with_the_log_exactly_a_power_of_two_long_at_a_statement_boundary", Min: 2}, {Key: "recoveries_that_replayed", Min: 100}, {Key: "chains_of_3_cycles", Min: 1},
 		{Key: "real_kill_agree", Min: 5}, {Key: "images_taken_with_the_real_timer_running", Min: 200}, {Key: "images_crash_after_create_timer", Min: 10},
 		{Key: "images_crash_after_insert_never", Min: 1}, {Key: "images_crash_after_update_never", Min: 1}, {Key: "images_crash_after_delete_never", Min: 1}, {Key: "images_crash_after_create_never", Min: 1},
 		{Key: "images_crash_after_insert_always", Min: 1}, {Key: "images_crash_after_update_mixed", Min: 1}, {Key: "images_crash_after_delete_mixed", Min: 1},
